@@ -29,9 +29,9 @@ CONSTANTS TombLogOn,
           FifoOrder,      \* BOOLEAN: one flusher, default pickers, no deletes, no restart: blocks are reclaimed oldest-filled first (C09)
           ReinsertKeys    \* keys the reinsertion filter admits (C09)
 
-VARIABLES img, tpages, stored, last, acked, written, fillOrder, laterDel, ondev, l, bad
+VARIABLES img, tpages, stored, last, acked, written, fillOrder, laterDel, ondev, marked, marking, l, bad
 
-tvars == <<img, tpages, stored, last, acked, written, fillOrder, laterDel, ondev, l, bad>>
+tvars == <<img, tpages, stored, last, acked, written, fillOrder, laterDel, ondev, marked, marking, l, bad>>
 
 Rec == ndJsonDeserialize(IOEnv.TRACE)
 
@@ -78,7 +78,7 @@ ProbeBad(im, tp, res) ==
 TraceInit ==
     /\ img = Img0 /\ tpages = <<>> /\ stored = [k \in Keys |-> {}]
     /\ last = [k \in Keys |-> NoOp] /\ acked = [k \in Keys |-> NoOp] /\ written = {}
-    /\ fillOrder = <<>> /\ laterDel = [k \in Keys |-> FALSE] /\ ondev = {}
+    /\ fillOrder = <<>> /\ laterDel = [k \in Keys |-> FALSE] /\ ondev = {} /\ marked = {} /\ marking = FALSE
     /\ l = 1 /\ bad = {}
 
 TraceNext ==
@@ -90,6 +90,11 @@ TraceNext ==
               /\ fillOrder' = <<>>
               /\ laterDel' = [k \in Keys |-> FALSE]
               /\ ondev' = {}
+              /\ marked' = {} /\ marking' = FALSE
+         [] e.a = "mark" ->
+              \* every block marked for imminent reclaim (probation), through the guarded hook
+              /\ marked' = Blocks /\ marking' = TRUE /\ bad' = {}
+              /\ UNCHANGED <<img, tpages, stored, last, acked, written, fillOrder, laterDel, ondev>>
          [] e.a = "sub" ->
               /\ stored' = [stored EXCEPT ![e.k] = @ \cup {e.v}]
               /\ last' = [last EXCEPT ![e.k] = [kind |-> "ins", n |-> e.v]]
@@ -97,6 +102,7 @@ TraceNext ==
               /\ UNCHANGED fillOrder
               /\ UNCHANGED laterDel
               /\ UNCHANGED ondev
+              /\ UNCHANGED <<marked, marking>>
          [] e.a = "del" ->
               \* n = the next version number: anything newer than the delete has a version >= n
               /\ last' = [last EXCEPT ![e.k] = [kind |-> "del", n |-> e.n]]
@@ -104,12 +110,14 @@ TraceNext ==
               /\ UNCHANGED fillOrder
               /\ laterDel' = [laterDel EXCEPT ![e.k] = TRUE]
               /\ UNCHANGED ondev
+              /\ UNCHANGED <<marked, marking>>
          [] e.a = "ack" ->
               /\ acked' = last
               /\ UNCHANGED <<img, tpages, stored, last, written>> /\ bad' = {}
               /\ UNCHANGED fillOrder
               /\ laterDel' = [k \in Keys |-> FALSE]
               /\ UNCHANGED ondev
+              /\ UNCHANGED <<marked, marking>>
          [] e.a = "w" ->
               LET ps == Pages(e.ps)
                   isIndex == Len(ps) = 1 /\ ps[1].t = "idx" IN
@@ -126,12 +134,14 @@ TraceNext ==
                               THEN Append(fillOrder, e.b) ELSE fillOrder
               /\ UNCHANGED laterDel
               /\ ondev' = ondev \cup {Pages(e.ps)[j].v : j \in {j \in DOMAIN Pages(e.ps) : Pages(e.ps)[j].t = "ent"}}
+              /\ UNCHANGED <<marked, marking>>
          [] e.a = "tw" ->
               /\ tpages' = [p \in (DOMAIN tpages) \cup {e.p} |-> IF p = e.p THEN e.ts ELSE tpages[p]]
               /\ UNCHANGED <<img, stored, last, acked, written>> /\ bad' = {}
               /\ UNCHANGED fillOrder
               /\ UNCHANGED laterDel
               /\ UNCHANGED ondev
+              /\ UNCHANGED <<marked, marking>>
          [] e.a = "clean" ->
               \* a block was reclaimed: its first page zeroed (the ack rule then no longer applies to its keys)
               /\ img' = WritePages(img, e.b, 0, <<Zero>>)
@@ -142,6 +152,7 @@ TraceNext ==
               /\ fillOrder' = SelectSeq(fillOrder, LAMBDA x : x # e.b)
               /\ UNCHANGED laterDel
               /\ UNCHANGED ondev
+              /\ marked' = marked \ {e.b} /\ UNCHANGED marking     \* the reclaimer resets the block's probation mark
          [] e.a = "q" ->
               LET ix == Rebuild(img, IF TombLogOn THEN Tombs(tpages) ELSE {})
                   sc == ConcatScans(img, BlockSeq(Blocks))
@@ -161,6 +172,11 @@ TraceNext ==
                                      /\ e.res[i] \in stored[k] /\ e.res[i] # acked[k].n
                                   THEN {<<"C09", "older_version_after_reclaim", k>>} ELSE {})
                             \cup (IF e.res[i] # 0 /\ e.res[i] \notin stored[k] THEN {<<"C09", "damaged_entry_surfaced", k>>} ELSE {})
+                            \* C12: a disk hit comes back Old (to be written again on eviction) exactly if its block is
+                            \* marked for imminent reclaim; a reclaimed and refilled block is not
+                            \cup (IF marking /\ e.res[i] # 0 /\ e.ages[i] \in {1, 2} /\ Lookup(img, ix, k) = e.res[i]
+                                     /\ (e.ages[i] = 2) # (ix[Hash[k]].b \in marked)
+                                  THEN {<<"C12", "age_of_disk_hit_differs_from_block_probation", k>>} ELSE {})
                             \cup (IF k \in ReinsertKeys /\ acked[k] = last[k] /\ acked[k].kind = "ins" /\ acked[k].n \in ondev /\ e.res[i] = 0
                                   THEN {<<"C09", "reinserted_entry_lost", k>>} ELSE {})
                             \* right after a restart the live index is exactly what the scanner and recovery rebuilt
@@ -173,12 +189,14 @@ TraceNext ==
               /\ UNCHANGED fillOrder
               /\ UNCHANGED laterDel
               /\ UNCHANGED ondev
+              /\ UNCHANGED <<marked, marking>>
          [] e.a = "probe" ->
               /\ bad' = ProbeBad(img, tpages, e.res)
               /\ UNCHANGED <<img, tpages, stored, last, acked, written>>
               /\ UNCHANGED fillOrder
               /\ UNCHANGED laterDel
               /\ UNCHANGED ondev
+              /\ UNCHANGED <<marked, marking>>
          [] e.a = "fprobe" ->
               \* C03: a fault was applied to a copy of the image (the harness re-classified the pages of every
               \* block it touched, and the tombstone page if that was hit); the copy was opened and every key
@@ -201,6 +219,7 @@ TraceNext ==
               /\ UNCHANGED fillOrder
               /\ UNCHANGED laterDel
               /\ UNCHANGED ondev
+              /\ UNCHANGED <<marked, marking>>
          [] e.a = "tprobe" ->
               \* the first pages of the next block write reached the device before the crash
               /\ bad' = ProbeBad(WritePages(img, e.b, e.o, Pages(e.ps)), tpages, e.res)
@@ -208,6 +227,7 @@ TraceNext ==
               /\ UNCHANGED fillOrder
               /\ UNCHANGED laterDel
               /\ UNCHANGED ondev
+              /\ UNCHANGED <<marked, marking>>
     /\ l' = l + 1
 
 TraceSpec == TraceInit /\ [][TraceNext]_tvars
@@ -217,6 +237,7 @@ NoViolation_C03 == NoViolation("C03")
 NoViolation_C04 == NoViolation("C04")
 NoViolation_C07 == NoViolation("C07")
 NoViolation_C09 == NoViolation("C09")
+NoViolation_C12 == NoViolation("C12")
 NoDrift == \A b \in bad : b[1] # "drift"
 
 Consumed ==
